@@ -20,11 +20,11 @@ func propC06() *Property {
 		Assumptions: []string{"library functions do not panic on the argument ranges established here (strings.Repeat count >= 0, slice bounds)", "regexp/syntax models the regexp engine's capture structure"},
 		Rules: []Rule{
 			{ID: "C06.K1", Title: "type assertions are comma-ok or provably hold", Floor: 10, Run: c06K1},
-			{ID: "C06.K2", Title: "value+Err pairs: values used only under XErr == nil; producers sound", Floor: 12, Run: c06K2},
-			{ID: "C06.K3", Title: "externally influenced integers are range-checked before indexing / Repeat / make", Floor: 8, Run: c06K3},
-			{ID: "C06.K4", Title: "regexp match indexing within capture structure", Floor: 15, Run: c06K4},
-			{ID: "C06.K5", Title: "explicit panics are unreachable or discharged", Floor: 4, Run: c06K5},
-			{ID: "C06.K7", Title: "every recursion has a checked measure", Floor: 4, Run: c06K7},
+			{ID: "C06.K2", Title: "value+Err pairs: values used only under XErr == nil; producers sound", Floor: 15, Run: c06K2},
+			{ID: "C06.K3", Title: "externally influenced integers are range-checked before indexing / Repeat / make", Floor: 25, Run: c06K3},
+			{ID: "C06.K4", Title: "regexp match indexing within capture structure", Floor: 19, Run: c06K4},
+			{ID: "C06.K5", Title: "explicit panics are unreachable or discharged", Floor: 26, Run: c06K5},
+			{ID: "C06.K7", Title: "every recursion has a checked measure", Floor: 3, Run: c06K7},
 		},
 	}
 }
